@@ -133,8 +133,13 @@ def _crop_family(ctx: Ctx, F) -> None:
                 if size0 == "chain":
                     # operation chains: the family applied to a grid that is itself the result of downsample() (fractional internal size)
                     size = (8, 9, 7)[:D]
-                    env = Env(ctx, D, size, ac, fractional=True)
                     tag = f"D={D},size={size} after downsample,align_corners={ac}"
+                    try:
+                        env = Env(ctx, D, size, ac, fractional=True)
+                    except InterpError as e:
+                        _guard(ctx, "T9.crop-family", f"{tag}:base", F["downsample"], f"op=downsample (base of the chains) {tag}",
+                               lambda e=e: (False, f"raises {e}"))
+                        continue
                 else:
                     env = Env(ctx, D, size if size != "sym" else [0] * D, ac, symbolic_size=(size == "sym"))
                     tag = f"D={D},size={size},align_corners={ac}"
